@@ -6,6 +6,7 @@ import Driver.LzhD
 import Driver.VolD
 import Driver.ResD
 import Driver.MapD
+import Driver.ClmD
 /-!
 # op2model — line-protocol driver for the executable model
 
@@ -23,6 +24,7 @@ def handlers : List (String → List String → Option String) :=
   handleVol ::
   handleRes ::
   handleMap ::
+  handleClm ::
   []
 
 def dispatch (line : String) : String :=
